@@ -11,7 +11,7 @@ from typing import Callable, Dict, List, Optional, Sequence, Tuple
 
 from . import common
 from .diffrun import Case, Config, ImplResult, Trace, run_impl, run_model
-from .gram import Grammar
+from .gram import Grammar, grammar_from_json, grammar_to_json
 
 
 # ---------------------------------------------------------------- helpers over traces
@@ -63,9 +63,10 @@ def is_nontrivial(tr: Trace) -> bool:
 
 def case_payload(c: Case, impl: Optional[Trace], model: Optional[Trace], extra: Dict) -> Dict:
     d = {
+        'grammar_def': grammar_to_json(c.g),
         'grammar': c.g.proto_lines(),
         'grammar_cpp': [f"n{nid}: {nd.cpp} [{nd.flavour}]" for nid, nd in sorted(c.g.nodes.items())],
-        'config': vars(c.cfg) if hasattr(c.cfg, '__dict__') else {k: getattr(c.cfg, k) for k in ('root', 'a', 'm', 'eol', 'lazy', 'unwind', 'fam')},
+        'config': {k: getattr(c.cfg, k) for k in ('root', 'a', 'm', 'eol', 'lazy', 'unwind', 'fam')},
         'init': list(c.init),
         'input_hex': c.data.hex(),
         'observed': {'events': impl.events, 'result': impl.result, 'o': impl.o} if impl else None,
@@ -215,7 +216,7 @@ class Profile:
     compare_surv: bool = True
     san: str = 'asan'
     per_tu: int = 6
-    fuel: int = 3000
+    fuel: int = 200
     inits: Sequence[Tuple[int, int, int]] = ((0, 1, 1),)
     known: Optional[Callable[[Case, Trace, str, str], Optional[Tuple[str, str]]]] = None  # (case, trace, oracle, msg) -> (finding id, what)
     compare_filter: Optional[Callable[[str], bool]] = None   # keep only event lines for which this is true
@@ -321,3 +322,36 @@ def run_engine(prop: str, tier: str, lean_modules: List[str], profiles: List[Pro
           'assumptions': ["agreement of model and implementation is established on the generated cases only",
                           "template dispatch, RAII and exception unwinding are modelled by explicit control flow (DESIGN §2.4)"]}
     return v.finish(ev)
+
+
+def replay(prop: str, path: str, oracles, use_sem: bool = False) -> int:
+    """Re-evaluate one replay file against /repo's current headers: regenerate the single-grammar
+    harness, run model and implementation, re-apply the oracles."""
+    d = json.loads(open(path).read())
+    if d.get('kind') == 'no-failing-input-found' or 'grammar_def' not in d:
+        print(f"replay {path}: no failing input recorded (broken: {d.get('broken')}); re-run the check itself")
+        return 1
+    g = grammar_from_json(d['grammar_def'])
+    cfg = Config(**d['config'])
+    c = Case('replay_0', g, cfg, bytes.fromhex(d['input_hex']), tuple(d.get('init', (0, 1, 1))))
+    mt, sems = run_model([c], 400, use_sem)
+    ir = run_impl([c], san='asan+ubsan', per_tu=1, tag=f"{prop}_replay")
+    if ir.compile_errors or ir.crashes:
+        print("\n".join(ir.compile_errors + ir.crashes)[:4000])
+        print(f"VIOLATION property={prop} replay={path}")
+        return 1
+    i = ir.traces.get(c.cid)
+    m = mt.get(c.cid)
+    bad = []
+    for oname, ofn in oracles:
+        msg = ofn(c, i, sems.get(c.cid)) if oname == 'sem' else ofn(c, i)
+        if msg:
+            bad.append(f"{oname}: {msg}")
+    agree = m is not None and i is not None and m.events == i.events and m.result == i.result and m.o == i.o
+    print("implementation:", i.result, "| model:", m.result if m else None, "| traces agree:", agree)
+    for b in bad:
+        print("oracle hit:", b)
+    if bad:
+        print(f"VIOLATION property={prop} replay={path}")
+        return 1
+    return 0
